@@ -1147,7 +1147,110 @@ func execC05MInner(ops []Op) []string {
 	return execMech(ops)
 }
 
+// c05ResumeContainment: LState.Resume is the Go-side boundary at which an error inside a coroutine is delivered (state
+// ResumeError + the error value): whatever the coroutine raised and wherever the resume was made — top level, inside
+// host functions at depth 1..3, under pcall — the resuming state's call depth, registry top, current frame and API
+// stack are afterwards exactly what they were, nothing escapes as a Go panic, and the state keeps working.
+func c05ResumeContainment() (why string) {
+	defer func() {
+		if r := recover(); r != nil {
+			why = fmt.Sprint("a Go panic escaped LState.Resume: ", r)
+		}
+	}()
+	bodies := []string{
+		`error("boom")`, `error({code = 1})`, `error()`, `local n = nil; return n.x`, `local n = nil; return n + 1`, `gopanic()`,
+		`pcall(error, "inner"); error("after inner")`, `coroutine.yield(1); error("after yield")`,
+		`local function deep(k) if k == 0 then error("deep") end return 1 + deep(k - 1) end return deep(20)`,
+		`return select(2, xpcall(function() error("x") end, function(m) error("handler fails") end)), error("outer")`,
+		`local t = setmetatable({}, {__index = function() error("in metamethod") end}); return t.x`,
+		`return unpack({}, 1, 1e7)`,
+	}
+	for bi, body := range bodies {
+		for depth := 0; depth <= 3; depth++ {
+			for _, underPcall := range []bool{false, true} {
+				L := lua.NewState()
+				L.SetGlobal("gopanic", L.NewFunction(func(*lua.LState) int { panic("a Go value") }))
+				fn, err := L.LoadString(body)
+				if err != nil {
+					L.Close()
+					return "harness: " + err.Error()
+				}
+				var report string
+				var try func(S *lua.LState) int
+				try = func(S *lua.LState) int {
+					S.Push(lua.LString("own-1"))
+					S.Push(lua.LNumber(2))
+					co, _ := S.NewThread()
+					for round := 0; round < 2; round++ { // the second round resumes past the yield / resumes the dead coroutine
+						top, snap := S.GetTop(), S.VerifSnapshot()
+						st, rerr, vals := S.Resume(co, fn)
+						after := S.VerifSnapshot()
+						switch {
+						case S.GetTop() != top:
+							report = fmt.Sprintf("API stack top %d -> %d", top, S.GetTop())
+						case after.Sp != snap.Sp || after.Top != snap.Top || after.HasFrame != snap.HasFrame || after.FrameIdx != snap.FrameIdx || after.LocalBase != snap.LocalBase:
+							report = fmt.Sprintf("resumer state %+v -> %+v", snap, after)
+						case st == lua.ResumeError && rerr == nil:
+							report = "ResumeError without an error value"
+						case st != lua.ResumeError && !(bi == 7 && round == 0 && st == lua.ResumeYield && len(vals) == 1):
+							report = fmt.Sprintf("a failing coroutine body gave state %v", st)
+						case S.Get(top-1) != lua.LString("own-1") || S.Get(top) != lua.LNumber(2):
+							report = "the resumer's own values changed"
+						}
+						if report != "" {
+							report += fmt.Sprintf(" (round %d)", round)
+							return 0
+						}
+					}
+					return 0
+				}
+				nest := try
+				for d := 0; d < depth; d++ {
+					inner := nest
+					nest = func(S *lua.LState) int {
+						f := S.NewFunction(inner)
+						top := S.GetTop()
+						if underPcall {
+							if err := S.CallByParam(lua.P{Fn: f, NRet: 0, Protect: true}); err != nil && report == "" {
+								report = "the error left Resume and reached the enclosing protected call: " + err.Error()
+							}
+						} else {
+							S.Push(f)
+							S.Call(0, 0)
+						}
+						if S.GetTop() != top && report == "" {
+							report = fmt.Sprintf("host frame at depth: top %d -> %d", top, S.GetTop())
+						}
+						return 0
+					}
+				}
+				if depth == 0 {
+					nest(L)
+				} else if err := L.CallByParam(lua.P{Fn: L.NewFunction(nest), NRet: 0, Protect: true}); err != nil && report == "" {
+					report = "error escaped to the outermost call: " + err.Error()
+				}
+				if report == "" {
+					if err := L.DoString(`local co = coroutine.wrap(function(a) local b = coroutine.yield(a + 1) return a + b end) assert(co(1) == 2 and co(5) == 6)`); err != nil {
+						report = "the state does not work afterwards: " + err.Error()
+					}
+				}
+				L.Close()
+				if report != "" {
+					return fmt.Sprintf("body %q depth %d underPcall %v: %s", body, depth, underPcall, report)
+				}
+			}
+		}
+	}
+	return ""
+}
+
 func runC05M(run *Run) {
+	if why := c05ResumeContainment(); why != "" {
+		line := "X go-api-resume-of-a-failing-coroutine " + strings.ReplaceAll(why, " ", "_") + " => LState.Resume(co, fn) with a failing body"
+		run.Failures = append(run.Failures, Failure{CaseIdx: -9002, Kind: "CRASH", Line: line, Reply: line, Lines: []string{line}})
+		run.Extra["resume_containment"] = why
+		return
+	}
 	root := NewRng(uint64(run.Seed))
 	var cases []Case
 	idx := 0
